@@ -144,6 +144,11 @@ fn run(op: &Op) -> (u64, usize) {
                 for v in nested::internal_edge_sorted(*d, *h, *dd).iter() {
                     dg.u64(*v);
                 }
+                dg.u64(u64::MAX);
+                // the unsorted walk (closed path S -> E -> N -> W), a different code path
+                for v in nested::internal_edge(*d, *h, *dd).iter() {
+                    dg.u64(*v);
+                }
             }
             let st = nested::external_edge_struct(*d, *h, *dd);
             for c in [cdshealpix::compass_point::Cardinal::S, cdshealpix::compass_point::Cardinal::N] {
@@ -164,6 +169,17 @@ fn run(op: &Op) -> (u64, usize) {
             let r = l.to_ring(*h);
             dg.u64(r);
             dg.u64(l.from_ring(r));
+            // the free uniq functions (they go through get_or_create as well)
+            let u = nested::to_uniq(*d, *h);
+            dg.u64(u);
+            let (ud, uh) = nested::from_uniq(u);
+            dg.u64(ud as u64);
+            dg.u64(uh);
+            let ui = nested::to_uniq_ivoa(*d, *h);
+            dg.u64(ui);
+            let (ud, uh) = nested::from_uniq_ivoa(ui);
+            dg.u64(ud as u64);
+            dg.u64(uh);
         }
         Op::V { d, lon, lat, r } => match r {
             Some(r) => dg.f64(cdshealpix::largest_center_to_vertex_distance_with_radius(*d, *lon, *lat, *r)),
